@@ -200,6 +200,6 @@ func TestC05(t *testing.T) {
 				}
 			}
 		}
-		e.feed(feedOpts{shortlexQ: 3, shortlexT: 5, sweepQ: 30, sweepT: 2000, numShapes: 1}, func(kind string, in []byte) error { return eval(kind, in) })
+		e.feed(feedOpts{counts: 2, shortlexQ: 3, shortlexT: 5, sweepQ: 30, sweepT: 2000, numShapes: 1}, func(kind string, in []byte) error { return eval(kind, in) })
 	})
 }
